@@ -60,9 +60,14 @@ def make_t3(envs):
             _, aa, bb = sh[2][2]
             hx = f["_hex"]
             s = bytes.fromhex(hx) if hx != "-" else b""
+            base = 0
+            if f["_form"] == "span":
+                s, base = s[f["_a"]:f["_b"]], f["_a"]
+            elif f["_form"] == "pos":
+                s, base = s[f["_a"]:], f["_a"]
             o = slice_oracle(ctx, aa, bb, s)
             if o[0] == "ok":
-                if not f["P"].startswith("ok@%d=" % o[1]):
+                if not f["P"].startswith("ok@%d=" % (o[1] + base)):
                     return "list-slicing model: PEEK[%s..%s] on a stack of %d matches up to %d, parse gives %s" % (aa, bb, o[2], o[1], f["P"][:60])
             elif not f["P"].startswith("fail"):
                 return "list-slicing model: PEEK[%s..%s] on a stack of %d must fail, parse gives %s" % (aa, bb, o[2], f["P"][:60])
